@@ -230,6 +230,10 @@ func writerFlushFragmentRules(c *Ctx, prop string) {
 	}
 	var out []rec
 	shapes := []struct{ raw, off, n int }{{16, 2, 0}, {16, 2, 5}, {16, 2, 14}, {16, 6, 0}, {16, 6, 4}, {16, 6, 10}, {140, 4, 130}, {140, 8, 126}}
+	if c.Tier == "thorough" {
+		// the 125/126 boundary from both sides, with the small and the large reservation, both masks
+		shapes = append(shapes, []struct{ raw, off, n int }{{140, 4, 125}, {140, 4, 126}, {140, 8, 125}, {140, 8, 127}, {300, 4, 255}, {300, 4, 256}, {300, 8, 290}, {16, 2, 1}, {16, 6, 1}, {16, 2, 13}}...)
+	}
 	paths := m.Explore(f, func(mm *fold.Machine) []fold.Val {
 		sh := shapes[mm.Choose("shape", len(shapes))]
 		cfg = writerCfg{rawLen: sh.raw, offset: sh.off, n: sh.n, op: int64(1 + mm.Choose("op", 2)), fseq: mm.Choose("fseq", 3), nExt: mm.Choose("next", 3)}
@@ -323,7 +327,7 @@ func writerFlushFragmentRules(c *Ctx, prop string) {
 			problems = append(problems, "server side masks a frame")
 		}
 	}
-	c.verdict(rule, rule+"/flushFragment", c.P.FuncPos(f), uniq(problems), fmt.Sprintf("%d paths over 8 buffer shapes x opcode x fseq x fin x 0-2 extensions: byte-exact frames", len(out)))
+	c.verdict(rule, rule+"/flushFragment", c.P.FuncPos(f), uniq(problems), fmt.Sprintf("%d paths over %d buffer shapes x opcode x fseq x fin x 0-2 extensions: byte-exact frames", len(out), len(shapes)))
 }
 
 // ---- reservation: header space is sufficient at every buffer size ----
